@@ -231,6 +231,51 @@ pub fn full_lef() -> LefLibrary {
     lib
 }
 pub const LEF_STRING_SITES: usize = 10;
+pub const LEF_DECIMAL_SITES: usize = 8;
+fn set_lef_decimal(lib: &mut LefLibrary, site: usize, d: LefDecimal) {
+    let m = &mut lib.macros[0];
+    match site {
+        0 => lib.version = Some(d),
+        1 => m.size = Some((d, LefDecimal::new(-3, 0))),
+        2 => m.size = Some((LefDecimal::new(150, 2), d)),
+        3 => m.origin = Some(LefPoint::new(d, LefDecimal::new(25, 3))),
+        4 => m.pins[0].ports[0].layers[0].width = Some(d),
+        5 => m.pins[0].ports[0].layers[0].geometries[0] = LefGeometry::Shape(LefShape::Rect(None, LefPoint::new(d, LefDecimal::new(5, 1)), LefPoint::new(LefDecimal::new(12345, 4), d))),
+        6 => m.obs[0].geometries[1] = LefGeometry::Shape(LefShape::Polygon(None, vec![LefPoint::new(d, d), LefPoint::new(LefDecimal::new(1, 0), d), LefPoint::new(d, LefDecimal::new(1, 0))])),
+        _ => lib.manufacturing_grid = Some(d),
+    }
+}
+/// decimals over the whole range of the type: mantissas of 1 .. 29 digits (up to 2^96 - 1) x scales 0 .. 28 x sign
+fn lef_decimals() -> Vec<LefDecimal> {
+    let mants: [i128; 14] = [
+        0,
+        1,
+        5,
+        12345,
+        4503599627370497,                     // 2^52 + 1
+        9007199254740993,                     // 2^53 + 1: not a double
+        12345678901234567,                    // 17 digits
+        123456789012345678,                   // 18 digits
+        12345678901234567891,                 // 20 digits
+        123456789123456789012,                // 21 digits
+        99999999999999999999999,              // 23 nines
+        1000000000000000000000000001,         // 28 digits, 1 at both ends
+        39614081257132168796771975168,        // 2^95
+        79228162514264337593543950335,        // 2^96 - 1, the largest mantissa
+    ];
+    let mut v = vec![];
+    for m in mants {
+        for scale in [0u32, 1, 3, 6, 12, 17, 20, 28] {
+            for neg in [false, true] {
+                if neg && m == 0 {
+                    continue;
+                }
+                v.push(LefDecimal::from_i128_with_scale(if neg { -m } else { m }, scale));
+            }
+        }
+    }
+    v
+}
 fn set_lef_string(lib: &mut LefLibrary, site: usize, s: &str) {
     if site >= 8 {
         if site == 8 {
@@ -397,7 +442,7 @@ impl Driver for C18 {
     fn describe(&self, tier: Tier) -> Describe {
         Describe {
             rule: format!(
-                "[doubles] every binary exponent of the GDSII range (-256..=251) x sign x {} fraction patterns at each of {GDS_F64_SITES} f64 sites (UNITS x2, SREF MAG/ANGLE, AREF ANGLE, TEXT MAG) of a GDSII library holding one element of every kind with every optional field; [strings] every string of length <= {} over a 26-character alphabet special to JSON/YAML (quotes, colon, hash, backslash, space, newline, tab, CR, dash, ?, brackets, &, *, !, |, >, %, @, backtick, ~, comma, e-acute, digit, letter) plus {} whole strings (YAML keywords, numbers, document markers, flow/block indicators, leading/trailing/inner whitespace lines, BOM, NEL, U+2028, NUL, DEL, emoji, combining) at each of {GDS_STRING_SITES} GDSII and {LEF_STRING_SITES} LEF string sites; [structure] full GDSII / LEF libraries, repository .gds and .lef resources; [markup] repository .gds resources and the full library through to_markup + from_markup on files. All x {{Json, Yaml}} x {{to_string+from_str, save+open}}. A state is (value, site); non-trivial = not the default value. Oracle: value equality, f64 sites by bits, strings by bytes, GDSII bytes identical.",
+                "[doubles] every binary exponent of the GDSII range (-256..=251) x sign x {} fraction patterns at each of {GDS_F64_SITES} f64 sites (UNITS x2, SREF MAG/ANGLE, AREF ANGLE, TEXT MAG) of a GDSII library holding one element of every kind with every optional field; [strings] every string of length <= {} over a 26-character alphabet special to JSON/YAML (quotes, colon, hash, backslash, space, newline, tab, CR, dash, ?, brackets, &, *, !, |, >, %, @, backtick, ~, comma, e-acute, digit, letter) plus {} whole strings (YAML keywords, numbers, document markers, flow/block indicators, leading/trailing/inner whitespace lines, BOM, NEL, U+2028, NUL, DEL, emoji, combining) at each of {GDS_STRING_SITES} GDSII and {LEF_STRING_SITES} LEF string sites; [decimals] at each of {LEF_DECIMAL_SITES} LEF decimal sites (VERSION, SIZE x / y, ORIGIN, layer WIDTH, RECT and POLYGON coordinates, MANUFACTURINGGRID) every decimal with one of 14 mantissas of 1..29 digits (0, 1, 5, 12345, 2^52+1, 2^53+1, 17/18/20/21 digits, 23 nines, 28 digits, 2^95, 2^96-1) x scale in {{0,1,3,6,12,17,20,28}} x sign; [structure] full GDSII / LEF libraries, repository .gds and .lef resources; [markup] repository .gds resources and the full library through to_markup + from_markup on files. All x {{Json, Yaml}} x {{to_string+from_str, save+open}}. A state is (value, site); non-trivial = not the default value. Oracle: value equality, f64 sites by bits, strings by bytes, GDSII bytes identical.",
                 Self::doubles_for(tier, 0).len() / 2,
                 tier.pick(2, 3),
                 whole_strings().len()
@@ -420,6 +465,9 @@ impl Driver for C18 {
         }
         v.push("G".into());
         v.push("M".into());
+        for site in 0..LEF_DECIMAL_SITES {
+            v.push(format!("N:{site}"));
+        }
         v
     }
     fn run_unit(&self, unit: &str, cx: &mut Cx) {
@@ -483,6 +531,20 @@ impl Driver for C18 {
                 if b == 0 {
                     cx.sample(|| json!({"string": "a: b", "site": "GDSII TEXT string", "also": strs.iter().take(5).collect::<Vec<_>>()}));
                 }
+            }
+            "N" => {
+                let site: usize = parts[1].parse().unwrap();
+                let base = full_lef();
+                let ds = lef_decimals();
+                for (i, d) in ds.iter().enumerate() {
+                    let mut lib = base.clone();
+                    set_lef_decimal(&mut lib, site, *d);
+                    cx.stats.executions += 1;
+                    cx.stats.transitions += 1;
+                    self.check_lef(&lib, &format!("n:{site}:{i}"), &format!("decimal {d} (mantissa {}, scale {}) at LEF decimal site {site}", d.mantissa(), d.scale()), cx);
+                }
+                cx.bulk_states(ds.len() as u64, ds.len() as u64);
+                cx.tag("decimals");
             }
             "G" => {
                 let mut n = 0u64;
@@ -590,6 +652,13 @@ impl Driver for C18 {
                 set_gds_f64(&mut lib, site, x);
                 self.check_gds(&lib, key, &format!("double {x:e} at f64 site {site}"), |f, _| if f == "json" { Some(F_JSON_FLOAT) } else { None }, cx);
             }
+            "n" if p.len() == 3 => {
+                let (site, i): (usize, usize) = (p[1].parse().unwrap(), p[2].parse().unwrap());
+                let d = lef_decimals()[i];
+                let mut lib = full_lef();
+                set_lef_decimal(&mut lib, site, d);
+                self.check_lef(&lib, key, &format!("decimal {d} (mantissa {}, scale {}) at LEF decimal site {site}", d.mantissa(), d.scale()), cx);
+            }
             "s" if p.len() == 4 => {
                 let site: usize = p[2].parse().unwrap();
                 let s = unhex(p[3]);
@@ -620,7 +689,7 @@ impl Driver for C18 {
         json!({"case": key})
     }
     fn guards(&self, _tier: Tier, stats: &Stats, _d: u64) -> Result<(), String> {
-        require_tags(stats, &["doubles", "strings", "structure", "markup", "gds-resource", "lef-resource"])?;
+        require_tags(stats, &["doubles", "strings", "decimals", "structure", "markup", "gds-resource", "lef-resource"])?;
         require_outcomes(stats, &["identical"])
     }
 }
